@@ -430,6 +430,32 @@ pub fn decode_frame(frame: &[u8]) -> Sx {
     }
 }
 
+pub fn envelope_ok(frame: &[u8]) -> bool {
+    let text = match std::str::from_utf8(frame) {
+        Ok(t) => t,
+        Err(_) => return false,
+    };
+    let v: Value = match serde_json::from_str(text) {
+        Ok(v) => v,
+        Err(_) => return false,
+    };
+    let o = match v.as_object() {
+        Some(o) => o,
+        None => return false,
+    };
+    if !o.get("method").map(|m| m.is_string()).unwrap_or(false) {
+        return false;
+    }
+    for k in ["more", "oneway", "upgrade"] {
+        if let Some(x) = o.get(k) {
+            if !(x.is_boolean() || x.is_null()) {
+                return false;
+            }
+        }
+    }
+    true
+}
+
 pub fn dec_table(total: &[u8]) -> Sx {
     let mut seen: Vec<&[u8]> = Vec::new();
     let mut l = vec![sx::atom("dec")];
@@ -439,7 +465,14 @@ pub fn dec_table(total: &[u8]) -> Sx {
             let f = &total[start..i];
             if !seen.contains(&f) {
                 seen.push(f);
-                l.push(sx::list(vec![sx::bs(f), decode_frame(f)]));
+                // third element: the verdict of an envelope check written here, independently of the library's own
+                // types (a message is a JSON object with a string `method`; `more`, `oneway`, `upgrade` are
+                // booleans when present) — what P_C06 calls malformed does not depend on the library's parser alone
+                let mut e = vec![sx::bs(f), decode_frame(f)];
+                if !envelope_ok(f) {
+                    e.push(sx::atom("envelope-bad"));
+                }
+                l.push(sx::list(e));
             }
             start = i + 1;
         }
